@@ -98,7 +98,7 @@ class Rig:
     def __init__(self, initial, sub, comm, events):
         self.initial, self.sub, self.events = initial, sub, events
         self.settings = MemSettings(connect_mode=secsgem.hsms.HsmsConnectMode.PASSIVE, device_type=secsgem.common.DeviceType.EQUIPMENT,
-                                    t3=T3_LONG, establish_communication_timeout=120)
+                                    t3=T3_LONG, establish_communication_timeout=10 ** 6)
         del CONSTRUCTING[:]
         self.h = secsgem.gem.GemEquipmentHandler(self.settings, initial_control_state=initial, initial_online_control_state=sub)
         self.ctor_ceids = list(CONSTRUCTING)
@@ -113,6 +113,9 @@ class Rig:
         self.probe_seen = threading.Event()
         self.probe_system = None
         self.s6f11: list[int] = []
+        self.link = False
+        self.s1f13_mode = "accept"
+        self.s1f13_seen = threading.Event()
         self.hold_s6f12 = False
         self.held: list[int] = []
         self.sent_by: dict = {}   # sender thread -> number of S6F11 it has written
@@ -138,7 +141,12 @@ class Rig:
             return
         s, f = hd.stream, hd.function
         if (s, f) == (1, 13):
-            self.reply(hd.system, 1, 14, {"COMMACK": 0, "MDLN": []})
+            mode = self.s1f13_mode
+            self.s1f13_seen.set()
+            if mode == "accept":
+                self.reply(hd.system, 1, 14, {"COMMACK": 0, "MDLN": []})
+            elif mode == "deny":
+                self.reply(hd.system, 1, 14, {"COMMACK": 1, "MDLN": []})
         elif (s, f) == (1, 1):
             self.probe_system = hd.system
             mode = self.probe_mode
@@ -151,8 +159,6 @@ class Rig:
             fn = self.h.stream_function(6, 11)()
             fn.decode(blk.data)
             self.s6f11.append(fn.CEID.get())
-            me = threading.current_thread()
-            self.sent_by[me] = self.sent_by.get(me, 0) + 1
             if self.hold_s6f12:
                 self.held.append(hd.system)    # the host confirms late (inside T3): released by the harness, not by a clock
             else:
@@ -191,17 +197,34 @@ class Rig:
         return (f"S{hd.stream}F{hd.function}", out.get())
 
     # ---- link
-    def link_up(self):
+    def link_up(self, mode="accept"):
+        """mode: accept = S1F13 answered COMMACK 0 (COMMUNICATING); hold = S1F13 left unanswered (the handler stays in WAIT_CRA);
+        deny = S1F13 answered COMMACK 1 (WAIT_DELAY); noselect = connected, never selected (NOT_COMMUNICATING)"""
+        self.s1f13_mode = mode
+        self.s1f13_seen.clear()
         self.c.on_connected({"source": self.c})
-        self.feed(secsgem.hsms.HsmsMessage(secsgem.hsms.HsmsSelectReqHeader(77), b""))
-        if not self.h.waitfor_communicating(WAIT):
-            raise Stuck("communication not established")
-        self.comm = True
+        self.link = True
+        if mode != "noselect":
+            self.feed(secsgem.hsms.HsmsMessage(secsgem.hsms.HsmsSelectReqHeader(77), b""))
+        if mode == "accept":
+            if not self.h.waitfor_communicating(WAIT):
+                raise Stuck("communication not established")
+            self.comm = True
+            return
+        want = {"hold": "WAIT_CRA", "deny": "WAIT_DELAY", "noselect": "NOT_COMMUNICATING"}[mode]
+        if mode != "noselect" and not self.s1f13_seen.wait(WAIT):
+            raise Stuck("no S1F13 after select")
+        end = time.time() + WAIT
+        while self.h.communication_state.current.name != want:
+            if time.time() > end:
+                raise Stuck(f"communication state {self.h.communication_state.current.name}, wanted {want}")
+            time.sleep(0.001)
 
     def link_down(self):
         self.c.on_disconnecting({"source": self.c})
         self.c.on_disconnected({"source": self.c})
         self.comm = False
+        self.link = False
 
     def enable_events(self):
         r = self.request(2, 33, {"DATAID": 1, "DATA": [{"RPTID": 1, "VID": [1002]}]})
@@ -221,7 +244,7 @@ class Rig:
                     self.reply(self.probe_system, 1, 0, None)
                 self.op_thread.join(2)
             p = self.h.protocol
-            if self.comm:
+            if self.link:
                 self.link_down()
             d = p._thread
             d._stop_dispatcher_thread = True
@@ -328,10 +351,15 @@ class Rig:
             ack = f"ack{r[1]}" if r[0] == want else f"?{r}"
             return self.take_ceids() + [ack]
         if tok == "linklost":
+            if not self.link:
+                raise Stuck("generator: link loss without a link")
             self.link_down()
             return self.take_ceids()
         if tok == "linkup":   # harness-only (not a model input): re-establish communication
             self.link_up()
+            return None
+        if tok.startswith("linkup."):   # harness-only: a link that does not get as far as COMMUNICATING (WAIT_CRA / WAIT_DELAY / NOT_COMMUNICATING)
+            self.link_up(tok[7:])
             return None
         if tok == "hold":     # harness-only: from now on the host keeps its S6F12 confirmations back
             self.hold_s6f12 = True
@@ -353,12 +381,12 @@ class Rig:
         end = time.time() + WAIT
         senders = SENDERS.get(id(self.h), [])
         while len(self.s6f11) < want and time.time() < end:
-            # a sender is still "to come" while it is alive and has written fewer reports than it was given events; one that has written
-            # them all and waits for the (possibly held back) S6F12 is through
-            if not any(t.is_alive() and self.sent_by.get(t, 0) < n for t, n in senders):
+            # senders still "to come" = live sender threads minus those that have written their report and wait for an S6F12 the harness
+            # holds back (frames are written by the protocol's own thread, so they are counted, not attributed)
+            if sum(1 for t, _n in senders if t.is_alive()) - len(self.held) <= 0:
                 break
             time.sleep(0.002)
-        senders[:] = [(t, n) for t, n in senders if t.is_alive() and self.sent_by.get(t, 0) < n]
+        senders[:] = [(t, n) for t, n in senders if t.is_alive()]
         got = self.s6f11[:]
         del self.s6f11[:len(got)]
         return got
@@ -598,7 +626,8 @@ def main():
                 f"exhaustive: every input sequence of length {depth} over {{on.answers, on.silent, off, local, remote, S1F15, S1F17}} from every resting "
                 "state x remembered sub-state (reached through the handler's own inputs), every initial configuration x every single input and pair; "
                 "event-enabled rigs in which the host keeps its S6F12 confirmations back over several transitions (released by the harness); "
-                "random histories (4-14 inputs) incl. aborted probes, probes held open while S1F15/S1F17/operator actions arrive, link loss and "
+                "link loss in every communication state (COMMUNICATING, WAIT_CRA with the S1F14 held back, WAIT_DELAY after COMMACK 1, NOT_COMMUNICATING without select) "
+                "x control state; random histories (4-14 inputs) incl. aborted probes, probes held open while S1F15/S1F17/operator actions arrive, link loss and "
                 "re-establishment, not-communicating handlers. distinct = distinct (configuration, history); all are non-trivial")
     jobs = []  # (initial, sub, comm, events, tokens)
     if a.replay:
@@ -616,6 +645,12 @@ def main():
                     jobs.append((ini, sub, True, False, list(seq)))
                 jobs.append((ini, sub, False, False, ALPHA_NOCOMM + ["on.nocomm", "off"]))
                 jobs.append((ini, sub, True, True, rng.shuffle(ALPHA_COMM) + ["on.aborts", "local", "s1f17", "remote", "off"]))
+                # link loss while the communication state is WAIT_CRA / WAIT_DELAY / NOT_COMMUNICATING (and COMMUNICATING), from every control
+                # state a handler can be in without communication (the configured one, EQUIPMENT_OFFLINE after `off`, HOST_OFFLINE after the probe)
+                # (one such link episode per handler: after a link loss in WAIT_CRA/WAIT_DELAY the communication state machine does not start over)
+                for mode in ("hold", "deny", "noselect"):
+                    for pre in ([], ["off"], ["on.nocomm"], ["off", "on.nocomm", "off"]):
+                        jobs.append((ini, sub, False, False, pre + [f"linkup.{mode}", "linklost", "off", "on.nocomm", "local", "off"]))
                 # the host confirms S6F11 late: transitions that repeat an event while its earlier report is still unconfirmed
                 jobs.append((ini, sub, True, True, ["on.answers", "s1f17", "hold", "local", "remote", "local", "remote", "s1f15", "s1f17", "s1f15",
                                                     "release", "s1f17", "off", "on.answers", "local", "remote"]))
@@ -686,6 +721,31 @@ def main():
                     sp, got = spec_vs_impl(res, drv, case, hist)
                 res.violate("c11-e30", "control state / acknowledge code / collection events / SVID 1002 differ from the E30 table",
                             dict(case, history=hist), sp[:600], got[:600])
+    # ---- link loss (not an E30 trigger): what `on_connection_closed` does is the reference - ON-LINE and EQUIPMENT OFF-LINE end in HOST
+    # OFF-LINE whatever the communication state was (Props.C11.link_loss_effect); a difference AT a link-loss step is reported with the history
+    if drv.available and lines:
+        ll = [(c_, ln, im) for c_, ln, im in zip(cases, lines, answers) if "linklost" in ln]
+        outs = drv.run([ln for _, ln, _ in ll]) if ll else []
+        n_ll = 0
+        for (case, ln, im), mo in zip(ll, outs):
+            mo = hlib.strip_branch(mo)
+            if mo == im:
+                continue
+            toks_m = ln.split(" ")[4].split(",")
+            k = next((i for i, (x, y) in enumerate(zip(mo[3:].split("|"), im[3:].split("|"))) if x != y), None)
+            if k is not None and 1 <= k <= len(toks_m) and toks_m[k - 1] == "linklost" and n_ll < 3:
+                n_ll += 1
+                full = full_history[id(case)]
+                cut, n = len(full), 0
+                for i, t in enumerate(full):
+                    if not (t.startswith("linkup") or t in ("hold", "release")):
+                        n += 1
+                    if n >= k:
+                        cut = i + 1
+                        break
+                res.violate("c11-linkloss", "after the link was lost the control state is not what on_connection_closed prescribes "
+                            "(ON-LINE / EQUIPMENT OFF-LINE -> HOST OFF-LINE, whatever the communication state)",
+                            dict(case, history=full[:cut]), mo.split("|")[k], im.split("|")[k])
     res.dump(a.out)
     os._exit(0)
 
